@@ -291,6 +291,21 @@ Definition entry_of_txt (own : bytes) (m : elements) : option mentry :=
                e_serial := get rd_serial m;
                e_cats := match lookup rd_cat m with Some v => cats_of v | None => [] end |}.
 
+(* what the property calls a valid record, in its own words (not from the tables): the five
+   mandatory keys are present, txtvers is "1", the SKI is not the reader's own, register is
+   "true" or "false" *)
+Definition K_txtvers : bytes := [116; 120; 116; 118; 101; 114; 115].
+Definition K_id : bytes := [105; 100].
+Definition K_path : bytes := [112; 97; 116; 104].
+Definition K_ski : bytes := [115; 107; 105].
+Definition K_register : bytes := [114; 101; 103; 105; 115; 116; 101; 114].
+Definition txt_valid (own : bytes) (m : elements) : bool :=
+  is_some (lookup K_txtvers m) && is_some (lookup K_id m) && is_some (lookup K_path m)
+  && is_some (lookup K_ski m) && is_some (lookup K_register m)
+  && bytes_eqb (get K_txtvers m) [49]
+  && negb (bytes_eqb (get K_ski m) own)
+  && (bytes_eqb (get K_register m) b_true || bytes_eqb (get K_register m) b_false).
+
 (* the copy handed to the report receiver (copyMdnsEntries -> util.DeepCopy -> JSON) *)
 Definition report_copy (e : mentry) : mentry :=
   {| e_ski := json_copy (e_ski e); e_id := json_copy (e_id e); e_path := json_copy (e_path e);
